@@ -67,6 +67,8 @@ PINNED = {
     "add.transitions": "(mine + (theirs + 1))",
     "add.order": "(if (mine = theirs) then (some 0) else mine)",
     "add.merges": ["intersection-summed", "set-union-sorted-cut"],
+    "add.mfv_one_sided": "(if (theirsEmpty = true) then MfvPick.mine else (if (mineEmpty = true) then MfvPick.theirs else MfvPick.nothing))",
+    "text.cut_unit": "chars",
 }
 
 
@@ -92,6 +94,7 @@ def pinned_json():
         "profexpr.entry.recomputes": P["entry.recomputes"],
         "profexpr.add.transitions": P["add.transitions"], "profexpr.add.order": P["add.order"],
         "profexpr.add.merges": P["add.merges"],
+        "profexpr.add.mfv_one_sided": P["add.mfv_one_sided"], "profexpr.text.cut_unit": P["text.cut_unit"],
     }
 
 
@@ -358,24 +361,64 @@ def generate(o, _force_pinned=False):
     def call_body(cls):
         return find_function(tree, "__call__", cls)
 
-    def text_cut():
+    def cut_shape(e, var):
+        """(unit, width) of the expression a text value `var` is replaced by: 'chars' for `var[:W]`, 'bytes' for
+        `var.encode(..)[:W].decode(.., errors="ignore")` (whole characters that fit W bytes); `var if len(var) <= W and ... else X`
+        is X when the values the test lets through are left alone by X too."""
+        def upper(sl):
+            if not (isinstance(sl, ast.Slice) and sl.lower is None and sl.step is None and sl.upper is not None):
+                raise KeyError("slice [:W]")
+            return resolve(sl.upper)
+
+        if isinstance(e, ast.Subscript) and isinstance(e.value, ast.Name) and e.value.id == var:
+            return "chars", upper(e.slice)
+        if (isinstance(e, ast.Call) and isinstance(e.func, ast.Attribute) and e.func.attr == "decode" and isinstance(e.func.value, ast.Subscript)
+                and isinstance(e.func.value.value, ast.Call) and ast.unparse(e.func.value.value.func) == var + ".encode"):
+            enc = [ast.literal_eval(a) for a in e.func.value.value.args] + [ast.literal_eval(k.value) for k in e.func.value.value.keywords]
+            dec = [ast.literal_eval(a) for a in e.args] + [ast.literal_eval(k.value) for k in e.keywords]
+            norm = lambda xs: {str(x).lower().replace("-", "") for x in xs}
+            if not (norm(enc) <= {"utf8"} and norm(dec) <= {"utf8", "ignore"} and "ignore" in norm(dec)):
+                raise KeyError("encode / decode arguments")
+            return "bytes", upper(e.func.value.slice)
+        if isinstance(e, ast.IfExp) and isinstance(e.body, ast.Name) and e.body.id == var:
+            unit, w = cut_shape(e.orelse, var)
+            conj = e.test.values if isinstance(e.test, ast.BoolOp) and isinstance(e.test.op, ast.And) else [e.test]
+            texts = [ast.unparse(c) for c in conj]
+            short = [t for t in texts if t.startswith("len(%s) <= " % var) or t.startswith("len(%s) < " % var)]
+            if len(short) != 1:
+                raise KeyError("test of the conditional cut")
+            bound = resolve(ast.parse(short[0].split(" ", 2)[2], mode="eval").body) - (1 if " < " in short[0] else 0)
+            if bound > w:
+                raise KeyError("values longer than the window are left alone")
+            ascii_only = (var + ".isascii()") in texts
+            if unit == "chars" or ascii_only:
+                return unit, w  # a value of at most W characters (ASCII: of at most W bytes) is its own cut
+            raise KeyError("short values are left alone, longer ones cut in bytes")
+        raise KeyError("cut expression " + ast.unparse(e)[:50])
+
+    def text_cut_parts():
         fn = call_body("VarcharProfiler")
         blocks = [fn.body] + [n.body for n in ast.walk(fn) if isinstance(n, ast.If)]
         for body in blocks:
             ih = ic = None
-            width = None
+            width = unit = None
             for i, st in enumerate(body):
                 if isinstance(st, ast.Assign) and ast.unparse(st.targets[0]) == "self.profile.kmv_hashes" and "get_kvm_hashes(column_data" in ast.unparse(st.value):
                     ih = i
                 if (isinstance(st, ast.Assign) and ast.unparse(st.targets[0]) == "column_data" and isinstance(st.value, ast.ListComp)
-                        and isinstance(st.value.elt, ast.Subscript) and isinstance(st.value.elt.slice, ast.Slice)
-                        and st.value.elt.slice.lower is None and ast.unparse(st.value.elt.value) == st.value.generators[0].target.id
+                        and len(st.value.generators) == 1 and isinstance(st.value.generators[0].target, ast.Name)
                         and ast.unparse(st.value.generators[0].iter) == "column_data" and not st.value.generators[0].ifs):
+                    unit, width = cut_shape(st.value.elt, st.value.generators[0].target.id)
                     ic = i
-                    width = resolve(st.value.elt.slice.upper)
             if ih is not None and ic is not None:
-                return [ih < ic, width]
+                return [ih < ic, width], unit
         raise KeyError("hash and cut statements of VarcharProfiler")
+
+    def text_cut():
+        return text_cut_parts()[0]
+
+    def text_cut_unit():
+        return text_cut_parts()[1]
 
     MINF = ("numpy.min", "numpy.amin", "min", "numpy.nanmin")
     MAXF = ("numpy.max", "numpy.amax", "max", "numpy.nanmax")
@@ -586,6 +629,60 @@ def generate(o, _force_pinned=False):
             raise KeyError("most-frequent / sketch merge")
         return ["intersection-summed", "set-union-sorted-cut"]
 
+    def mfv_one_sided():
+        """The `elif` chain under `if self.most_frequent_values and profile.most_frequent_values:` — which list the sum gets when
+        not both sides list values: ours (already copied: `pass` / no branch), the other side's, or none."""
+        fn = add_fn()
+        top = [st for st in fn.body if isinstance(st, ast.If)
+               and ast.unparse(st.test) in ("self.most_frequent_values and profile.most_frequent_values",
+                                            "profile.most_frequent_values and self.most_frequent_values")]
+        if len(top) != 1:
+            raise KeyError("if self.most_frequent_values and profile.most_frequent_values")
+        env = {}
+        for a, b in (("count", "missing"), ("missing", "count")):
+            env["profile.%s == profile.%s" % (a, b)] = "(theirsEmpty = true)"
+            env["self.%s == self.%s" % (a, b)] = "(mineEmpty = true)"
+            env["profile.%s != profile.%s" % (a, b)] = "(theirsEmpty = false)"
+            env["self.%s != self.%s" % (a, b)] = "(mineEmpty = false)"
+        for side, nm in (("profile", "theirsLists"), ("self", "mineLists")):
+            env["%s.most_frequent_values" % side] = "(%s = true)" % nm
+            env["not %s.most_frequent_values" % side] = "(%s = false)" % nm
+            env["len(%s.most_frequent_values) > 0" % side] = "(%s = true)" % nm
+            env["len(%s.most_frequent_values) == 0" % side] = "(%s = false)" % nm
+
+        def copy_of(txt, side, fld):
+            base = "%s.most_frequent_%s" % (side, fld)
+            return txt in (base, "list(%s)" % base, "%s[:]" % base, "%s.copy()" % base, "[*%s]" % base)
+
+        def pick(body):
+            stmts = [st for st in body if not isinstance(st, ast.Pass) and not (isinstance(st, ast.Expr) and isinstance(st.value, ast.Constant))]
+            if not stmts:
+                return "MfvPick.mine"
+            tg = {}
+            for st in stmts:
+                if not (isinstance(st, ast.Assign) and len(st.targets) == 1):
+                    raise KeyError("branch of the most-frequent chain")
+                tg[ast.unparse(st.targets[0])] = ast.unparse(st.value)
+            if set(tg) != {"new_profile.most_frequent_values", "new_profile.most_frequent_counts"}:
+                raise KeyError("branch assigns %r" % sorted(tg))
+            v, c = tg["new_profile.most_frequent_values"], tg["new_profile.most_frequent_counts"]
+            if v in ("[]", "list()") and c in ("[]", "list()"):
+                return "MfvPick.nothing"
+            for side, res in (("profile", "MfvPick.theirs"), ("self", "MfvPick.mine")):
+                if copy_of(v, side, "values") and copy_of(c, side, "counts"):
+                    return res
+            raise KeyError("branch of the most-frequent chain: " + v[:40])
+
+        def chain(orelse):
+            if not orelse:
+                return "MfvPick.mine"
+            if len(orelse) == 1 and isinstance(orelse[0], ast.If):
+                n = orelse[0]
+                return "(if %s then %s else %s)" % (to_lean(n.test, env), pick(n.body), chain(n.orelse))
+            return pick(orelse)
+
+        return chain(top[0].orelse)
+
     def ot(key):
         def g():
             return ot_parts()[key]
@@ -623,6 +720,8 @@ def generate(o, _force_pinned=False):
     v["add_tr"] = o.item("profexpr.add.transitions", add_transitions, PINNED["add.transitions"])
     v["add_or"] = o.item("profexpr.add.order", add_order, PINNED["add.order"])
     o.item("profexpr.add.merges", add_merges, PINNED["add.merges"])
+    v["mfv_one_sided"] = o.item("profexpr.add.mfv_one_sided", mfv_one_sided, PINNED["add.mfv_one_sided"])
+    tcu = o.item("profexpr.text.cut_unit", text_cut_unit, PINNED["text.cut_unit"])
 
     def b(x):
         return "true" if x else "false"
@@ -669,6 +768,8 @@ def generate(o, _force_pinned=False):
     t += "/-- VarcharProfiler: the sketch is computed before the values are cut to `textCutWidth` characters -/\n"
     t += "def textHashBeforeCut : Bool := %s\n" % b(tc[0])
     t += "def textCutWidth : Nat := %d\n" % tc[1]
+    t += "/-- …the cut keeps the first `textCutWidth` *characters* (`col[:W]`); true: the whole characters that fit `textCutWidth` UTF-8 *bytes* -/\n"
+    t += "def textCutOnBytes : Bool := %s\n" % b(tcu == "bytes")
     t += "/-- where the reported extremes come from (`int(numpy.min(column_data))`, `string_to_int64(min(column_data))`) -/\n"
     t += "def numericMinimumSource : Source := .%s\n" % ns[0]
     t += "def numericMaximumSource : Source := .%s\n" % ns[1]
@@ -701,6 +802,10 @@ def generate(o, _force_pinned=False):
     t += "\n/-- ColumnProfile.__add__: `new_profile.transitions += profile.transitions + 1` and the update of `order` -/\n"
     t += "def addTransitions (mine theirs : Nat) : Nat := %s\n" % v["add_tr"]
     t += "def addOrder (mine theirs : Option Int) : Option Int := %s\n" % v["add_or"]
+    t += "set_option linter.unusedVariables false in\n"
+    t += ("/-- …which most-frequent list the sum gets when not both sides list values (`mineEmpty` / `theirsEmpty`: that side holds no "
+          "value, `count == missing`; `mineLists` / `theirsLists`: its list is not empty) -/\n")
+    t += "def addMfvOneSided (mineEmpty theirsEmpty mineLists theirsLists : Bool) : MfvPick := %s\n" % v["mfv_one_sided"]
     t += "end Gen.ProfileExpr\n"
     if _force_pinned:
         del o.item  # back to the class method
